@@ -43,6 +43,7 @@ def decode(data: bytes) -> dict:
     case["stop_at"] = d.i(0, len(case["events"]))
     case["cli"] = d.p(0.04)
     case["restart"] = d.p(0.3)
+    case["dual"] = d.p(0.2)
     return case
 
 
@@ -139,6 +140,29 @@ class C19Engine(Engine):
             port = None
             if case["transport"] == "tcp":
                 port = server._server.sockets[0].getsockname()[1]
+
+            # optionally a second server of the other transport on the same pool, with a client of its own
+            other: Dict[str, Any] = {}
+            if case.get("dual"):
+                labels.add("two-servers-one-pool")
+                path2 = path + ".2"
+                srv2: Any = UnixControlServer(pool, socket_path=path2) if case["transport"] == "tcp" else TCPControlServer(pool, host="127.0.0.1", port=0)
+                try:
+                    task2nd = await asyncio.wait_for(srv2.serve_forever(), BOUND)
+                    if case["transport"] == "tcp":
+                        r2, w2 = await asyncio.wait_for(asyncio.open_unix_connection(path2), BOUND)
+                    else:
+                        r2, w2 = await asyncio.wait_for(asyncio.open_connection("127.0.0.1", srv2._server.sockets[0].getsockname()[1]), BOUND)
+                    w2.write(json.dumps({"terminal_width": 80}).encode() + b"\n")
+                    await w2.drain()
+                    n2 = await asyncio.wait_for(r2.readline(), BOUND)
+                    if n2 != full + b"\n":
+                        fail("dual/handshake-on-second-server", repr(n2))
+                    other = {"srv": srv2, "task": task2nd, "r": r2, "w": w2, "path": path2}
+                except asyncio.TimeoutError:
+                    state["inconclusive"] = "second server slow"
+                except Exception as e:
+                    fail("dual/second-server-failed", repr(e))
 
             async def open_conn():
                 nonlocal port
@@ -333,6 +357,30 @@ class C19Engine(Engine):
                                 await ask(o, 0)
                                 labels.add("disconnect:other-session-still-answers")
 
+            if other:
+                # the second server's client is still served, whatever happened on the first server
+                try:
+                    other["w"].write(b"num-running\n")
+                    await other["w"].drain()
+                    rep = await asyncio.wait_for(other["r"].readline(), BOUND)
+                    if rep != b"0\n":
+                        fail("dual/second-server-client-not-served", repr(rep))
+                except asyncio.TimeoutError:
+                    if await idle_witness():
+                        fail("dual/second-server-client-not-served", "no reply")
+                except (ConnectionError, OSError) as e:
+                    fail("dual/second-server-client-not-served", repr(e))
+                other["w"].close()
+                other["task"].cancel()
+                try:
+                    await asyncio.wait_for(asyncio.shield(other["task"]), BOUND)
+                except asyncio.TimeoutError:
+                    if await idle_witness():
+                        fail("dual/second-server-never-completes", "")
+                except asyncio.CancelledError:
+                    pass
+                if case["transport"] == "tcp" and os.path.exists(other["path"]):
+                    fail("dual/second-unix-socket-file-left-behind", other["path"])
             if not stopped:
                 await do_stop()
             # every client leaves
